@@ -48,6 +48,8 @@ inductive Ev where
   | late (c : Nat)
   | leak (fn : String)
   | stuck (g site : String)
+  | replyerr (ep : Nat) (seq : Int) (cls : String)   -- the server logged that it could not send a reply
+  | inj (ep : Nat) (kind : String)   -- a scripted frame injected into the traffic towards `ep`
   | harness (msg : String)
 deriving Repr, Inhabited
 
@@ -140,6 +142,8 @@ def parseEv (toks : List String) : Ev :=
   | ["late", c] => .late (natOr c 0)
   | ["leak", f] => .leak f
   | ["stuck", g, s] => .stuck g s
+  | ["inj", ep, k] => .inj (natOr ep 0) k
+  | ["replyerr", ep, q, c] => .replyerr (natOr ep 0) (intOr q (-1)) c
   | _ => .harness (" ".intercalate toks)
 
 def parseHist (s : String) : List Ev :=
